@@ -471,13 +471,23 @@ def case_tocimxmlstr(ctx, rng):
                 obj.value = bad
         except (TypeError, ValueError):
             pass
+    if rng.random() < 0.15:
+        # a path that names a host but no namespace (the generator only
+        # produces the shapes that survive a round trip)
+        path = obj if isinstance(obj, (pywbem.CIMInstanceName,
+                                       pywbem.CIMClassName)) \
+            else getattr(obj, 'path', None)
+        if path is not None:
+            path.namespace = None
+            path.host = cimgen.host(rng)
+            kind += '+host-only-path'
     indent = rng.choice([None, None, 2, '\t', ' '])
     ctx.evaluated()
     ctx.cls('tocimxmlstr/' + kind)
     ctx.count('tocimxmlstr')
     detail = {'kind': kind, 'indent': indent, 'repr': short(repr(obj), 800)}
     try:
-        if kind == 'parameter_value':
+        if kind.startswith('parameter_value'):
             s = pywbem.tocimxmlstr(obj.tocimxml(as_value=True), indent)
         else:
             s = pywbem.tocimxmlstr(obj, indent)
